@@ -752,12 +752,13 @@ func runLargeLin(g *gen, count, toCoq int, seed uint64, st *vx.Stats, addCase fu
 			st.Count("large-lin:too-long-for-go-checker")
 			continue
 		}
-		if !linearizable(h) {
+		lin := linearizable(h)
+		if !lin {
 			st.Fail(map[string]any{"kind": "not-linearizable", "mode": "large-lin", "seed": seed, "index": n, "filler_entries": filler, "scripts": scripts, "history": h,
 				"what": "store pre-filled with the given number of entries outside the realm \"a\" (fillWorld); all calls go through the views with realm a / ab"})
 			bad++
 		}
-		if n < toCoq {
+		if n < toCoq && lin { // a history refuted by the Go checker is reported above; lin_check (no memo) is not asked to refute it again
 			addCase("CLin "+vx.ListOf(h, rec.coq), map[string]any{"mode": "large-lin", "index": n, "filler_entries": filler, "history": h})
 		}
 	}
